@@ -228,6 +228,16 @@ for dest in (-1, 0, 1):
     G(name="srv_tunnel_tun_to_%s" % dn, entry="h_tunnel_tun", defs=NET2DEFS + ["H_DEST=%d" % dest], enforce=["tunnel_tun"], props={"C04": "all", "C01": "all", "C14": "all", "C05": "safety"}, **NET2,
       what="server tunnel_tun on a TWO-slot table (owner of the destination address by the find_user_by_ip contract: %s): the session is looked up by the packet's destination address; no owner => dropped, nothing sent or changed; owner t => exactly the bytes read are compressed and handed to slot t only (new downstream packet + at most one held query of t answered, or queued behind the packet in flight, or one raw datagram to t's address), the other slot untouched" % dn)
 
+# ---- iodined.c: the answer writer (C09 stages 1/2, C10) --------------------------------------------------------------
+WD = dict(harness="h_writedns.c", style="legacy", unwind=8, cbmc_flags=SRV_FLAGS, min_obl=8, timeout=900, cost=60, mem_gb=24, shrink="iodined.c", shrink_set="writedns", rss_gb=4)
+G(name="wd_nameenc", entry="h_nameenc", enforce=["write_dns_nameenc"], props={"C09": "all", "C10": "all", "C05": "safety"}, **WD,
+  what="write_dns_nameenc for every payload of 0..4096 bytes, every downstream codec letter and every buffer of 256..1024 bytes (exact-size object): codec letter h/i/j/k == codec used; the codec is offered 245 characters; result = bytes consumed (>= 1 for a non-empty payload); name = letter + dotted text + separating dot + 2 letters, NUL-terminated, at most 253 characters")
+for tname in ("T_CNAME", "T_A", "T_TXT", "T_NULL", "T_PRIVATE", "OTHER"):
+    G(name="wd_write_dns_" + tname, tier=("thorough" if tname == "OTHER" else "quick"), entry="h_write_dns", defs=(["H_TYPE=" + tname] if tname != "OTHER" else []) + ["WD_BUF=65536", "WD_TXT=8192"], enforce=["write_dns", "write_dns_nameenc"],
+      unwindset=(["verif_real_write_dns.0:1"] if tname == "OTHER" else []),   # the MX/SRV loop is unreachable for other types (its unwinding assertion proves that)
+      props={"C09": "all", "C10": "all", "C05": "safety"}, **WD,
+      what="write_dns, query type %s, every payload of 0..4096 bytes and codec letter: CNAME/A = one write_dns_nameenc name; TXT = letter t/s/u/v/r + the complete text of the codec named by the letter (raw: payload copied as is); NULL/PRIVATE/other = payload as is; one message built for the query being answered and sent once to the asker" % tname)
+
 LEVELS = {}
 TRUSTED_BASE = ["CBMC 6.11.0 (goto-cc front end, goto-instrument --dfcc contract instrumentation, symex)",
                 "kissat (SAT back end)", "gcc -E (expansion of spec macros inside loop contracts)"]
